@@ -650,7 +650,7 @@ pub fn array_copy_to_volatile_slice<const MODE: u8, T: ByteValued>() {
         }
         leak(r);
     });
-    kani::cover!(cnt > 1 && cnt * sz < wc);
+    kani::cover!(cnt >= 1 && cnt * sz < wc);
     kani::cover!(cnt * sz > wc && wc > 0);
     kani::cover!(n > 8);
     post::<MODE>(&c, 0, n, &|j| src_copy[so + j]);
